@@ -5,7 +5,7 @@ import json
 
 claimed = {
  "C20": dict(level="exploration", engine="I",
-   text="bounded-exhaustive enumeration of message shapes (every list of <=2/3 attribute kinds (15 kinds) x 7 integrity/fingerprint endings, plus 16-fold repetitions up to 12 KB); every hot-path operation is measured with testing.AllocsPerRun in a dedicated GOMAXPROCS(1), GC-off process under two warm-up regimes; a non-zero reading must repeat 5 times before it counts",
+   text="bounded-exhaustive enumeration of message shapes (every list of <=2/4 attribute kinds (15 kinds) x 7 integrity/fingerprint endings, plus 16-fold repetitions up to 12 KB); every hot-path operation is measured with testing.AllocsPerRun in a dedicated GOMAXPROCS(1), GC-off process under two warm-up regimes; a non-zero reading must repeat 5 times before it counts",
    note="measurement oracle tied to go1.23.5's escape analysis; one known finding (MessageIntegrity.Check needs 20 bytes of spare capacity) in KNOWN_FINDINGS.txt",
    technique="bounded exhaustive enumeration of message shapes with a measurement oracle", ref="DESIGN.md section 2 C20"),
  "C10": dict(level="model_checking", engine="H+S",
@@ -33,11 +33,11 @@ claimed = {
    note="messages up to a few hundred bytes in chunks of 0/1/63/65; 4096-byte messages and random chunkings are not attempted; races inside one call are invisible to the cooperative scheduler",
    technique="explicit-state enumeration of reuse histories with environment-choice exploration (pool object selection) and preemption-bounded DFS", ref="DESIGN.md section 2 C18"),
  "C03": dict(level="model_checking", engine="H",
-   text="explicit enumeration of every building-operation history up to depth 4 (quick) / 5 (thorough) over a 35-operation alphabet from 12 start states, each executed on a real Message and checked against the reference parser/encoder after its last step (all shorter histories are enumerated too, so every intermediate state is checked); the coherence of the three length representations is a property of histories, which is exactly what is enumerated",
+   text="explicit enumeration of every building-operation history up to depth 4 (quick) / 5 (thorough) over a 37-operation alphabet from 25 start states, each executed on a real Message and checked against the reference parser/encoder after its last step (all shorter histories are enumerated too, so every intermediate state is checked); the coherence of the three length representations is a property of histories, which is exactly what is enumerated",
    note="attribute values come from fixed patterns; sizes stay within the 16-bit length field by construction (the property's precondition); plus Add of every length 0..3000 and the size boundary",
    technique="explicit-state enumeration of operation histories on the real object against a reference model", ref="DESIGN.md section 2 C03"),
  "C08": dict(level="model_checking", engine="H",
-   text="every history of up to 3 (quick) / 4 (thorough) uses of one Message over 72 uses, with retained storage and caller inputs poisoned between uses; differential oracle: the last use on the reused Message must equal the same use on a fresh Message with the same Type/TransactionID, byte for byte and field for field",
+   text="every history of up to 3 (quick) / 4 (thorough) uses of one Message over 96 uses (7 decode entry points incl. a segmented stream and a zero-length datagram x 12 messages, 12 Build lists), with retained storage and caller inputs poisoned between uses; differential oracle: the last use on the reused Message must equal the same use on a fresh Message with the same Type/TransactionID, byte for byte and field for field",
    note="message family of 12 (sizes 20..1225 bytes); poison bytes 0xD7/0xFF/0x01/seed",
    technique="explicit-state enumeration of use histories with a differential (fresh twin) oracle", ref="DESIGN.md section 2 C08"),
  "C13": dict(level="model_checking", engine="H",
@@ -53,7 +53,7 @@ claimed = {
    note="bursts of 13..32 bits are covered with a pattern family only; message bodies <= 2 attributes + optional MESSAGE-INTEGRITY",
    technique="bounded exhaustive enumeration of corruptions against a reference CRC", ref="DESIGN.md section 2 C05"),
  "C09": dict(level="exploration", engine="I",
-   text="every setter on every value length / code on both sides of each limit x 5 preceding message contents, release and debug; acceptance, error class and snapshot-equality-on-error are checked on each; Build is checked against Build of the prefix before the first failing setter for every list of <=3 menu setters",
+   text="every setter on every value length / code on both sides of each limit x 9 preceding message contents, release and debug; acceptance, error class and snapshot-equality-on-error are checked on each; Build is checked against Build of the prefix before the first failing setter for every list of <=3 menu setters",
    note="the accepted ErrorCode set is written out in the harness (17 exported constants)",
    technique="exhaustive enumeration of the (small, complete) value domains against a stated acceptance rule", ref="DESIGN.md section 2 C09"),
  "C06": dict(level="exploration", engine="I",
@@ -65,7 +65,7 @@ claimed = {
    note="value content is one pattern per class; for integrity/fingerprint the covered prefix is fixed and only uncovered bytes vary",
    technique="bounded exhaustive enumeration of input shapes and buffer configurations with a metamorphic (twin) oracle", ref="DESIGN.md section 2 C07"),
  "C16": dict(level="exploration", engine="I",
-   text="every string over the property's 20-symbol alphabet up to length 5 (quick) / 6 (thorough) after each of 7 prefixes, plus a long family, is parsed in isolated child processes with a capped stack and a hang watchdog; a crashing batch is bisected to one string. Exhaustive below the length bound, which is where the recursion defect lives (shortest witness has 3 symbols)",
+   text="every string over the property's 20-symbol alphabet up to length 5 (quick) / 7 (thorough) after each of 7 prefixes, plus a long family and 24 constant (read-only) URIs, is parsed in isolated child processes with a capped stack and a hang watchdog; a crashing batch is bisected to one string. Exhaustive below the length bound, which is where the recursion defect lives (shortest witness has 3 symbols)",
    note="stack cap 16 MB stands for 'unbounded'; 8 s per string stands for 'time bounded by input length'; random / grammar-mutated tails not attempted",
    technique="bounded exhaustive enumeration of all strings over a finite alphabet, process-isolated execution", ref="DESIGN.md section 2 C16"),
  "C17": dict(level="exploration", engine="I",
@@ -124,7 +124,7 @@ def main():
         ],
         "checks": checks,
         "not_applicable": na,
-        "notes": "All checks go through /verif/bin/vcheck (built by setup_cmd). Exit 0 held, 1 VIOLATION, 2 harness error. Known findings: /verif/KNOWN_FINDINGS.txt.",
+        "notes": "All checks go through /verif/bin/vcheck (built by setup_cmd). Exit 0 held, 1 VIOLATION, 2 harness error. Known findings: /verif/KNOWN_FINDINGS.txt. Before any scheduler-based verdict the scheduler and explorer pass a self-test in the freshly built worker (22 programs with known interleaving sets, deadlock, lost wake-up, livelock, pool/map answers, replay); in the plain and debug builds every 64th case is preceded by unrelated library activity (history independence); free-running -race side passes are sampled and reported separately as sum_race_pass_iterations (DESIGN.md 9.5, 9.7).",
     }
     json.dump(m, open("/verif/MANIFEST.json", "w"), indent=1)
     print("claimed", len(checks), "not_applicable", len(na))
